@@ -45,13 +45,25 @@ func (self *ListRange) CheckListPreConstraints(r *ListRequest) (bool, error) {
 	if r.IsNavigation() {
 		return true, nil
 	}
-	if self.Selector.PathMatches(r.Base, r.Selection.Path) {
+	if self.matches(r.Base, r.Selection.Path) {
 		if r.First {
 			r.SetStartRow(self.StartRow)
 			r.SetRow(self.StartRow)
-		} else if r.Row64 >= self.EndRow && self.EndRow != -1 {
+		}
+		// rows StartRow thru EndRow, both included
+		if self.EndRow != -1 && r.Row64 > self.EndRow {
 			return false, nil
 		}
 	}
 	return true, nil
+}
+
+// only the lists named by the selector, not the lists inside their entries
+func (self *ListRange) matches(base *Path, list *Path) bool {
+	if exact, ok := self.Selector.(interface {
+		PathMatchesExactly(base *Path, candidate *Path) bool
+	}); ok {
+		return exact.PathMatchesExactly(base, list)
+	}
+	return self.Selector.PathMatches(base, list)
 }
